@@ -503,3 +503,15 @@ def run(index, rep, tier):
                         rep.check(False, "R02.17", f.qualname, "rootedness decided as `not ...is_unrooted`", fn_where(f, x), "",
                                   "%s decides on `%s`: for a tree whose rooting state is undefined both is_rooted and is_unrooted are None, so this is True - the tree is written as rooted (NeXML: root=\"true\" on the seed node) and reads back with is_rooted True where the undefined state is to be rendered as unrooted" % (f.qualname, norm(x)))
         rep.floor("R02.17", "reads of the rooting state in the tree writers", 3, n17)
+
+    # ---- R02.18 one escaping routine for XML attribute values
+    with rep.section("R02.18"):
+        rep.rule("R02.18", "one escaping routine for XML attribute values: in the NeXML writer an attribute value goes through `_protect_attr` (quoteattr + character references for what the declared ISO-8859-1 encoding cannot hold) - saxutils.quoteattr / escape are called nowhere else in the module; a label written through quoteattr alone keeps its non-ASCII letters raw, and a document written to a file reads back with other labels (`rööt` as `rÃ¶Ã¶t`)")
+        n18 = 0
+        for f in index.functions_in_module("dendropy.dataio.nexmlwriter"):
+            for c in calls_in(f.node, nested=True):
+                if call_name(c) in ("quoteattr", "escape") and isinstance(c.func, ast.Attribute) and "saxutils" in norm(c.func.value):
+                    n18 += 1
+                    rep.check(f.name == "_protect_attr", "R02.18", f.qualname, "attribute value escaped beside _protect_attr", fn_where(f, c), "%s is the module's escaping routine" % f.name,
+                              "%s calls `%s` directly: the value skips the character-reference step of _protect_attr, so letters outside the declared encoding are written raw - an internal node label `rööt` written to a file and read back in binary mode comes back as `rÃ¶Ã¶t`" % (f.qualname, norm(c)[:60]))
+        rep.floor("R02.18", "calls of the saxutils escaping functions in the NeXML writer", 1, n18)
